@@ -263,7 +263,7 @@ class Sim:
             if state:
                 reqs.append({"obj": vm_id, "state": state, "type": "vms",
                              "locations": typed.get(f"{do_loc}_location", ""),
-                             "scope": typed.get("pool_scope", ""),
+                             "scope": " ".join(sorted(typed.get("pool_scope", "").split())),
                              "mode": typed.get(f"{action}_mode", "")})
             for image in vm_params.objects("images"):
                 typed = vm_params.object_params(image).object_params("images")
@@ -271,7 +271,7 @@ class Sim:
                 if state:
                     reqs.append({"obj": f"{vm_id}/{image}", "state": state, "type": "images",
                                  "locations": typed.get(f"{do_loc}_location", ""),
-                                 "scope": typed.get("pool_scope", ""),
+                                 "scope": " ".join(sorted(typed.get("pool_scope", "").split())),
                                  "mode": typed.get(f"{action}_mode", "")})
         name = params.get("name", "")
         answer = True
